@@ -275,7 +275,9 @@ def run_shards(modname: str, specs: list[dict], timeout: float, par: int = NCPU,
 
     try:
         expired = run_batch(list(range(len(specs))), par)
-        if expired and not os.environ.get("VERIF_NO_RETRY"):
+        # A single straggler may be a victim of machine load: it gets a second chance without its siblings.  When several
+        # shards blow a budget that is >= 10x their normal duration, load is not the explanation: report at once.
+        if expired and len(expired) <= 3 and not os.environ.get("VERIF_NO_RETRY"):
             # re-run without the load of the full set (a few at a time keeps a broken tree from costing hours)
             expired = run_batch(expired, 4)
         for i in expired:
